@@ -75,15 +75,33 @@ Theorem C07_password_confined : forall fuel cfg (s : srv) v,
   c_custom cfg = None ->
   In v (clear_cmds (w_trace (snd (run (dial fuel cfg) (world0 s))))) ->
   reveals_password v = true ->
-  noenc_type (c_auth cfg) = true \/ is_localhost (c_host cfg) = true.
+  noenc_type (c_auth cfg) = true \/ Dial.is_localhost (c_host cfg) = true.
 Proof. exact C07_password_confined_l. Qed.
 Print Assumptions C07_password_confined.
+
+(* T1: smtp.isLocalhost, translated from the AST of smtp/auth.go (Gen.is_localhost; any shape other than a disjunction
+   of equalities with string literals is untranslatable and emitted as "true"), is EXACTLY membership in the three names;
+   the model applies that Gen term to the host bytes of the configuration *)
+Theorem C07_source_is_localhost : forall n,
+  Dial.is_localhost n = existsb (bytes_eqb n) [bs "localhost"; bs "127.0.0.1"; bs "::1"].
+Proof. exact source_is_localhost_l. Qed.
+Print Assumptions C07_source_is_localhost.
+
+(* ... so the exemption holds only if the host string is literally one of them *)
+Theorem C07_password_confined_names : forall fuel cfg (s : srv) v,
+  c_custom cfg = None ->
+  In v (clear_cmds (w_trace (snd (run (dial fuel cfg) (world0 s))))) ->
+  reveals_password v = true ->
+  noenc_type (c_auth cfg) = true \/
+  c_host cfg = bs "localhost" \/ c_host cfg = bs "127.0.0.1" \/ c_host cfg = bs "::1".
+Proof. exact C07_password_confined_names_l. Qed.
+Print Assumptions C07_password_confined_names.
 
 Theorem C07_password_confined_dial_and_send : forall fuel cfg msgs (s : srv) v,
   c_custom cfg = None ->
   In v (clear_cmds (w_trace (snd (run (dial_and_send fuel cfg msgs) (world0 s))))) ->
   reveals_password v = true ->
-  noenc_type (c_auth cfg) = true \/ is_localhost (c_host cfg) = true.
+  noenc_type (c_auth cfg) = true \/ Dial.is_localhost (c_host cfg) = true.
 Proof. exact C07_password_confined_send_l. Qed.
 Print Assumptions C07_password_confined_dial_and_send.
 
@@ -165,7 +183,7 @@ Proof. vm_compute. auto. Qed.
 Example C07_example_password_inside_tls :
   let s := srv0 [] None [bs "STARTTLS"; bs "AUTH PLAIN LOGIN"] [bs "AUTH PLAIN LOGIN"] HsOk in
   let cfg := mkCfg Opportunistic false Gen.smtp_auth_login None (bs "mail.verif.test") false true true true true false in
-  c_custom cfg = None /\ noenc_type (c_auth cfg) = false /\ is_localhost (c_host cfg) = false /\
+  c_custom cfg = None /\ noenc_type (c_auth cfg) = false /\ Dial.is_localhost (c_host cfg) = false /\
   fst (run (dial 10 cfg) (world0 s)) = Ok tt /\
   In (ECmd (VResp TPass) false) (w_trace (snd (run (dial 10 cfg) (world0 s)))) /\
   existsb reveals_password (clear_cmds (w_trace (snd (run (dial 10 cfg) (world0 s))))) = false.
@@ -173,7 +191,7 @@ Proof. vm_compute. intuition. Qed.
 
 (* the exemptions are real: with a *-NOENC type, or towards a localhost name, the password does go out in clear *)
 Example C07_exemption_noenc_refuted :
-  exists cfg s v, c_custom cfg = None /\ is_localhost (c_host cfg) = false /\
+  exists cfg s v, c_custom cfg = None /\ Dial.is_localhost (c_host cfg) = false /\
     In v (clear_cmds (w_trace (snd (run (dial 10 cfg) (world0 s))))) /\ reveals_password v = true.
 Proof.
   exists (mkCfg NoTLS false Gen.smtp_auth_plain_noenc None (bs "mail.verif.test") false true true true true false).
